@@ -24,7 +24,7 @@ LEVEL_TEXT = ('for each (family, theta, seed form, n) the complete set of enviro
 LEVEL_NOTE = ('trusted: numpy RandomState, mpmath h; bands: lattice discretisation (script) and DKW/Hoeffding at 1e-9 '
               '(closure); the library cdf used for the joint comparison is the one verified by C06')
 RULE = ('family x theta alphabet x {record: seed in (None,0,RandomState(3)) x n in (1,2,40|200); script: k x k lattice of '
-        '(v,c) answers; closure: n=4000 real draws x seeds}; + models obtained by fit on a reference pseudo-sample; '
+        '(v,c) answers; closure: n=4000 real draws x seeds; large: one seeded call of 20 037 | 70 001 rows per family x 2 thetas, every row against the inverse asked in blocks of 500}; + models obtained by fit on a reference pseudo-sample; '
         'non-trivial = every case; distinct = distinct (mode,family,theta,seed,n)')
 ASSUMPTIONS = ['numpy legacy RandomState is a faithful U(0,1) source', 'mpmath 40-digit arithmetic']
 
@@ -54,6 +54,11 @@ def cases(tier, seed):
         out.append(('fitted', fam, 0.0, tier, 0))
         out.append(('tau0', fam, 0.0, tier, 0))
         out.append(('reassigned', fam, 0.0, tier, 0))
+        # one call for more rows than any plausible internal block (2^14, 10 000, ...): every row is still the conditional
+        # inverse of ITS OWN pair of draws
+        mids = sorted(A.THETAS[tier][fam])
+        for th in (mids[len(mids) // 2], mids[-2]):
+            out.append(('large', fam, th, tier, 0))
     return out
 
 
@@ -214,6 +219,47 @@ def run_case(case):
         r.hit('reassigned')
         r['sample'] = {'mode': mode, 'family': fam, 'thetas': len(order)}
         return r
+    if mode == 'large':
+        ref = Ref(fam, th)
+        n = 20037 if tier == 'quick' else 70001
+        cop = make_biv(fam, th, random_state=0)
+        with seams.seam() as log:
+            r.tr()
+            out = cop.sample(n)
+        dr = seams.draws(log)
+        if not _shape_ok(r, out, n, sig, case, fam, th):
+            return r
+        out = np.asarray(out)
+        if not (len(dr) == 2 and all(d[0] == 'uniform' and tuple(d[1]) == (0, 1, n) and not d[2] for d in dr)):
+            r.hit('protocol-changed')
+            r['sample'] = {'mode': mode, 'family': fam, 'theta': th, 'note': 'draw protocol changed'}
+            return r
+        v, c = np.asarray(dr[0][3]), np.asarray(dr[1][3])
+        if not np.array_equal(out[:, 1], v):
+            r.violation(f'{sig}:second-column', f'{fam} theta={th}: second column of sample({n}) is not the first uniform draw', case=case)
+            return r
+        # (a) 600 rows spread over the whole call against the mpmath conditional inverse
+        if not _bracket_rows(r, ref, out, v, c, sig + ':large', case, fam, th, limit=600):
+            return r
+        # (b) EVERY row against the library's own inverse asked in blocks of 500 (validated against mpmath in C08 at that size)
+        fresh = make_biv(fam, th)
+        worst, at = 0.0, -1
+        for i in range(0, n, 500):
+            r.tr()
+            blk = np.asarray(fresh.percent_point(c[i:i + 500].copy(), v[i:i + 500].copy()), float)
+            d = np.abs(blk - out[i:i + 500, 0])
+            r.ev(len(d))
+            if d.size and not np.all(d <= 1e-9):
+                j = int(np.argmax(~(d <= 1e-9)))
+                worst, at = float(d[j]), i + j
+                break
+        if at >= 0:
+            r.violation(f'{sig}:large:row-depends-on-batch', f'{fam} theta={th}: row {at} of sample({n}) has u={out[at, 0]!r}; the conditional '
+                        f'inverse of its own draws (c={c[at]!r}, v={v[at]!r}) asked in a block of 500 is {worst!r} away', case=case)
+        r.hit('large')
+        r['sample'] = {'mode': mode, 'family': fam, 'theta': th, 'n': n}
+        return r
+
     if mode == 'record':
         ref = Ref(fam, th)
         for seedform in ('none', 'int0', 'rs3'):
@@ -365,5 +411,5 @@ def run_case(case):
 def finish(agg, tier):
     for fam in ('clayton', 'gumbel', 'frank'):
         engine.require(agg['hits'].get(f'family:{fam}', 0) >= 12, f'family {fam} under-explored')
-    for m in ('record', 'script', 'closure', 'fitted'):
+    for m in ('record', 'script', 'closure', 'fitted', 'large'):
         engine.require(agg['hits'].get(f'mode:{m}', 0) >= 3, f'mode {m} missing')
